@@ -6,11 +6,11 @@ namespace vh {
 #ifdef HFSM2_ENABLE_PLANS
 
 template <typename TPlan>
-static inline bool planAppendKind(TPlan& plan, int kk, int origin, int dest, int id) {
+static inline bool planAppendKind(TPlan& plan, int kk, int origin, int dest, int id, bool noPayload) {
 	const hfsm2::StateID o = (hfsm2::StateID)origin, d = (hfsm2::StateID)dest;
 #ifndef VH_NO_PAYLOAD
 	const Payload pl = PIO::make(id);
-	switch (kk) {
+	if (!noPayload) switch (kk) {
 		case 0: return plan.changeWith(o, d, pl);
 		case 1: return plan.restartWith(o, d, pl);
 		case 2: return plan.resumeWith(o, d, pl);
@@ -22,7 +22,8 @@ static inline bool planAppendKind(TPlan& plan, int kk, int origin, int dest, int
 		default: return plan.scheduleWith(o, d, pl);
 	}
 #else
-	(void)id;
+	(void)id; (void)noPayload;
+#endif
 	switch (kk) {
 		case 0: return plan.change(o, d);
 		case 1: return plan.restart(o, d);
@@ -34,7 +35,6 @@ static inline bool planAppendKind(TPlan& plan, int kk, int origin, int dest, int
 #endif
 		default: return plan.schedule(o, d);
 	}
-#endif
 }
 
 // append one random task to `plan`, which belongs to region index `region` (head state VH_REGION_HEAD[region])
@@ -51,8 +51,9 @@ bool vhPlanAppend(TPlan plan, Probe& p, int region, int src) {
 	if (p.next() % 10 < 2) dest = origin;			// cyclic task
 	if (dest == origin) { if (!((VH_KINDMASK[dest] >> kk) & 1)) kk = 0; }
 	const int id = p.newId();
-	const bool ok = planAppendKind(plan, kk, origin, dest, id);
-	Log& L = *p.log; L.tag('A'); L.i(region); L.i(origin); L.i(dest); L.i(kk); L.i(id); L.i(ok); L.i(src); L.nl();
+	const bool np = p.chance(p.k.pNoPayload);			// a task without payload (logged with id -1)
+	const bool ok = planAppendKind(plan, kk, origin, dest, id, np);
+	Log& L = *p.log; L.tag('A'); L.i(region); L.i(origin); L.i(dest); L.i(kk); L.i(np ? -1 : id); L.i(ok); L.i(src); L.nl();
 	return ok;
 }
 
